@@ -39,5 +39,7 @@ T_CloseNoticed(o) ==
 (* attr(side = "ws" | "wss", res = "cli:<e>,srv:<e>")                                        *)
 DialEnc(scheme) == IF scheme = "wss" THEN "tls" ELSE "none"
 T_EncryptionAgrees(o) ==
-  \A i \in TIdx(o) : o[i].op = "attr" => o[i].res = "cli:" \o DialEnc(o[i].side) \o ",srv:" \o DialEnc(o[i].side)
+  \A i \in TIdx(o) : (o[i].op = "attr" /\ o[i].side \in {"ws", "wss"}) => o[i].res = "cli:" \o DialEnc(o[i].side) \o ",srv:" \o DialEnc(o[i].side)
+(* closing a websocket transport ends the TCP connection under it, not only the websocket conversation *)
+T_SocketReleased(o) == \A i \in TIdx(o) : (o[i].op = "attr" /\ o[i].side = "wsclose") => o[i].res = "closed"
 =============================================================================
